@@ -43,8 +43,9 @@ Inductive tk_pc : Type :=
 | TkAtLoad                     (* before [taken.load()]            take.rs Data arm *)
 | TkAtInc                      (* before [taken.fetch_add(1)]      (only when not fixed) *)
 | TkInData (t' : nat)          (* inside the sink's Data handler; t' = the local [taken] *)
-| TkAtEndLoad                  (* before [end.load()] *)
-| TkAtEndStore                 (* before [end.store(true)] *)
+| TkAtEndLoad                  (* before [end.swap(true)] (fixed: whoever sets the flag ends the sink, /repo fix H11);
+                                  before [end.load()] (not fixed) *)
+| TkAtEndStore                 (* before [end.store(true)]         (only when not fixed) *)
 | TkInTerm                     (* inside the sink's Terminate handler *)
 | TkFinished.
 
@@ -91,6 +92,11 @@ Section TakeThreads.
   Definition tk_emit (s : tk_state) (t : nat) (e : tev) : tk_state :=
     s <| tks_tr := (t, e) :: tks_tr s |>.
 
+  (** the flag is set; the upstream is told to stop; the sink's Terminate begins *)
+  Definition tk_end_now (s : tk_state) (t : nat) (th : tk_thread) : tk_state :=
+    let s1 := s <| tks_end := true |> <| tks_stopped := true |> in
+    tk_set (tk_emit (tk_emit s1 t (TUp 0 UT)) t (TBegin DT)) t (th <| tk_pcv := TkInTerm |>).
+
   Definition tk_step (s : tk_state) (t : nat) : tk_state :=
     let th := tks_th s t in
     match tk_pcv th, tk_q th with
@@ -115,10 +121,9 @@ Section TakeThreads.
         else tk_set s1 t (tk_next (tks_stopped s) th)
     | TkAtEndLoad, _ =>
         if tks_end s then tk_set s t (tk_next (tks_stopped s) th)
+        else if fixed then tk_end_now s t th
         else tk_set s t (th <| tk_pcv := TkAtEndStore |>)
-    | TkAtEndStore, _ =>
-        let s1 := s <| tks_end := true |> <| tks_stopped := true |> in
-        tk_set (tk_emit (tk_emit s1 t (TUp 0 UT)) t (TBegin DT)) t (th <| tk_pcv := TkInTerm |>)
+    | TkAtEndStore, _ => tk_end_now s t th
     | TkInTerm, _ =>
         tk_set (tk_emit s t TEnd) t (tk_next true th)
     | _, _ => s
